@@ -3199,9 +3199,6 @@ func (c *Ctx) checkReaderRowUnderChannelName() {
 				continue
 			}
 			cand++
-			if !core.IsFieldLoad(nameF)(args[0]) {
-				continue // the name is computed (a choice between the two spellings): nothing to ask here
-			}
 			// does this function know how the request was addressed?
 			flag := func(v ssa.Value) bool { return isFlag(fn, v, 0) }
 			knows := false
@@ -3217,6 +3214,13 @@ func (c *Ctx) checkReaderRowUnderChannelName() {
 					}
 				}
 			})
+			if !core.IsFieldLoad(nameF)(args[0]) {
+				// the name is computed (a choice between the two spellings): the channel spelling is chosen
+				// by how the request was addressed or by the user's cached record - not by a property of
+				// the topic, which is the same for subscribers and readers (C08.1g)
+				c.checkChannelSpellingChosenPerUser(fn, call, f.Name(), args[0], knows, flag, pudChan)
+				continue
+			}
 			if !knows {
 				continue
 			}
@@ -3238,6 +3242,7 @@ func (c *Ctx) checkReaderRowUnderChannelName() {
 				"the acting user's subscription row is addressed by the group spelling of the topic name although the request may have come in through the channel name: a channel reader's row lives under chnXXX, the write is acknowledged and lands nowhere (or on the wrong row)")
 		}
 	}
+	r.Check(c.nSpelling >= 1, "C08.1g-channel-spelling-chosen-per-user", "writes of the acting user's row under a computed name", "-", fmt.Sprintf("%d", c.nSpelling), "none: anchor lost")
 	r.Check(cand >= 3, rule, "writes of the acting user's own subscription row in Topic methods", "-", fmt.Sprintf("%d (%d under the bare Topic.name)", cand, n), "fewer than three: anchor lost")
 }
 
